@@ -274,4 +274,56 @@ Section SeqMeetsOracle.
       eapply sinv_snapshot; [exact H2|intros k v i r []|].
       intros k v i r Hin. pose proof (end_time_gt _ _ _ _ _ Hin). destruct (proj1 H2 _ _ _ _ Hin) as [A [B C]]. lia.
   Qed.
+
+  (* the same at the Prop level, for every key (used for the machine's own histories) *)
+  Definition chkP (ws : list hwrite) (e : hev) : Prop :=
+    match e with
+    | (RReg _ _, _, _) => True
+    | (RGet k res, i, r) => ValidRead init ws k res i r
+    | (RClone snap, i, r) => forall k, ValidRead init ws k (lookup k snap) i r
+    end.
+
+  Lemma seq_mainP ops : forall n d P, 0 <= n -> SInv d n P ->
+    let H := seq_hist n (outs d ops) in Forall (chkP (P ++ writes_of H)) H.
+  Proof.
+    induction ops as [|o rest IH]; intros n d P Hn HI; cbv zeta.
+    - constructor.
+    - assert (Hsuf : forall evs, forall k v i r, In (k, v, i, r) (writes_of (seq_hist (n + 1) evs)) -> ~ r < 2 * n + 1).
+      { intros evs k v i r Hin. destruct (suffix_bounds evs (n + 1) ltac:(lia) k v i r Hin). lia. }
+      assert (HP : forall k v i r, In (k, v, i, r) P -> i < 2 * n + 2).
+      { intros k v i r Hin. destruct (proj1 HI _ _ _ _ Hin) as [A [B C]]. lia. }
+      destruct o as [k v|k x|x].
+      + rewrite outs_reg. cbn [seq_hist].
+        change (writes_of ((RReg k v, 2 * n + 1, 2 * n + 2) :: seq_hist (n + 1) (outs (set k v d) rest)))
+          with ((k, v, 2 * n + 1, 2 * n + 2) :: writes_of (seq_hist (n + 1) (outs (set k v d) rest))).
+        replace (P ++ (k, v, 2 * n + 1, 2 * n + 2) :: writes_of (seq_hist (n + 1) (outs (set k v d) rest)))
+          with ((P ++ [(k, v, 2 * n + 1, 2 * n + 2)]) ++ writes_of (seq_hist (n + 1) (outs (set k v d) rest)))
+          by (rewrite <- app_assoc; reflexivity).
+        constructor; [exact I|].
+        exact (IH (n + 1) (set k v d) (P ++ [(k, v, 2 * n + 1, 2 * n + 2)]) ltac:(lia) (sinv_reg d n P k v Hn HI)).
+      + rewrite outs_get. cbn [seq_hist].
+        change (writes_of ((RGet k (lookup k d), 2 * n + 1, 2 * n + 2) :: seq_hist (n + 1) (outs d rest)))
+          with (writes_of (seq_hist (n + 1) (outs d rest))).
+        constructor; [|exact (IH (n + 1) d P ltac:(lia) (sinv_next d n P Hn HI))].
+        cbn [chkP]. eapply sinv_valid; [exact HI|apply Hsuf|exact HP].
+      + rewrite outs_clone. cbn [seq_hist].
+        change (writes_of ((RClone d, 2 * n + 1, 2 * n + 2) :: seq_hist (n + 1) (outs d rest)))
+          with (writes_of (seq_hist (n + 1) (outs d rest))).
+        constructor; [|exact (IH (n + 1) d P ltac:(lia) (sinv_next d n P Hn HI))].
+        cbn [chkP]. intros k. eapply sinv_valid; [exact HI|apply Hsuf|exact HP].
+  Qed.
+
+  Lemma seq_histP ops :
+    Forall (chkP (writes_of (seq_hist 0 (outs init ops)))) (seq_hist 0 (outs init ops)).
+  Proof. exact (seq_mainP ops 0 init [] ltac:(lia) sinv_init). Qed.
+
+  (* the boolean oracle from the Prop-level facts *)
+  Lemma hist_ok_of_chkP evs : Forall (chkP (writes_of evs)) evs -> hist_ok init evs = true.
+  Proof.
+    intros H. rewrite hist_ok_chk. apply forallb_forall. intros e Hin.
+    rewrite Forall_forall in H. specialize (H e Hin). destruct e as [[o i] r]. destruct o as [k v|k res|snap]; cbn [chk].
+    - reflexivity.
+    - apply valid_read_iff. exact H.
+    - unfold valid_snapshot. apply forallb_forall. intros k _. apply valid_read_iff. apply H.
+  Qed.
 End SeqMeetsOracle.
